@@ -237,6 +237,12 @@ def gen_world(rng, rich=True, natives=True, max_depth=3):
         depth = rng.choice(['s(s(s(s(z))))', 's(s(s(s(s(z)))))', 's(s(s(s(s(s(s(s(z))))))))'])
         tail = rng.choice(['q(W)', 'r(W)', 's(W,Y)', 's(Y,W)', 'm(W,[a,b,c])', '(W = a ; W = b)'])
         rules.insert(rng.randrange(len(rules) + 1), 'p(X,Y) :- lnk(%s,X,W), %s.' % (depth, tail))
+    if rng.random() < 0.15:
+        # clauses whose body goals have anonymous variables in positions where the facts differ: each `_`
+        # must be a fresh variable in every activation (overlapping activations must not see each other's)
+        rules.insert(rng.randrange(len(rules) + 1), rng.choice([
+            'p(X,Y) :- s(_,Y).', 'p(X,Y) :- t(_,X,_), q(Y).', 'p(X,Y) :- s(X,_), s(_,Y).', 'h2(X) :- s(_,X).',
+            'p(X,Y) :- q(_), r(Y), s(X,_).', 'h1(X,Y) :- t(X,_,Y).']))
     native = []
     if natives:
         for n, a, rows in facts:
